@@ -209,6 +209,11 @@ def check_object(ctx, rebuild, method, case):
         V("copy-raises:%s" % type(e).__name__, "%s of a LASFile raised %r" % (method, e))
         return
     ctx.count("copies_compared")
+    try:
+        cpy = make(method, cpy)          # a copy of the copy must still be the same thing
+    except Exception as e:
+        V("copy-raises:%s" % type(e).__name__, "%s of a %s copy raised %r" % (method, method, e))
+        return
     csnap = canon.clas(cpy)
     if csnap != snap:
         V(classify(snap, csnap), "%s copy differs: %s" % (method, canon.diff(snap, csnap)[:4]))
